@@ -123,6 +123,10 @@ def wl_xdh(ctx, config):
             if eb is None or eb.ret != 1: continue
             ell_b = eb.b(1); kb = db
         mode = it % 4; pre = pools.rbytes(rng, 64) if mode == 1 else None
+        if mode == 1 and it % 8 == 1:
+            # prefixes built from the BIP-324 tag hash (the prefix for which the library has a precomputed midstate): whole, halves, neighbours
+            th = sha(b"bip324_ellswift_xonly_ecdh")
+            pre = rng.choice((th + th, th + bytes(32), th + pools.rbytes(rng, 32), bytes(32) + th, pools.rbytes(rng, 32) + th, th + th[:31] + bytes([th[31] ^ 1]), th[:31] + bytes([th[31] ^ 1]) + th))
         PB = ellswift.decode(ell_b)
         # A's view
         ra = ctx.call("ellswift_xdh", ell_a, ell_b, b32(da), 0, mode, pre, config=config)
